@@ -1,6 +1,10 @@
 package main
 
-import "github.com/nelhage/taktician/tak"
+import (
+	"sync"
+
+	"github.com/nelhage/taktician/tak"
+)
 
 // smallPosition builds a position near the end of a game on a small board: a handful of pieces on
 // the board (stacks, walls, sometimes a capstone) and one or two stones left in reserve, so that the
@@ -121,6 +125,11 @@ func famPosition(r *RNG, size, nW, nB, wallPct, stackPct, res int) *tak.Position
 			mx = nB
 		}
 		cfg := tak.Config{Size: size, Pieces: mx + res, BlackWinsTies: r.Chance(1, 4)}
+		if famCaps > 0 {
+			// a capstone each (custom piece counts: 3x3 and 4x4 have none by default); with res = 0 the side that
+			// has placed most is out of flat stones and can only drop its capstone or slide
+			cfg.Capstones = famCaps
+		}
 		p, err := tak.FromSquares(cfg, board, 2+r.Intn(30))
 		if err != nil {
 			continue
@@ -133,9 +142,24 @@ func famPosition(r *RNG, size, nW, nB, wallPct, stackPct, res int) *tak.Position
 }
 
 // graphFamily draws a root for an exactly solvable graph; larger families only when `big`.
+// famCaps: capstones per side of the next famPosition (0 = the size's default)
+var famCapsMu sync.Mutex
+var famCaps int
+
+func famPositionCaps(r *RNG, size, nW, nB, wallPct, stackPct, res, caps int) *tak.Position {
+	famCapsMu.Lock()
+	defer famCapsMu.Unlock()
+	famCaps = caps
+	defer func() { famCaps = 0 }()
+	return famPosition(r, size, nW, nB, wallPct, stackPct, res)
+}
+
 func graphFamily(r *RNG, big bool) *tak.Position {
 	x := r.Intn(100)
 	switch {
+	case x < 12:
+		// flat stones exhausted or nearly so, a capstone still in hand
+		return famPositionCaps(r, 3, 1, 1, 30, 0, r.Intn(2), 1)
 	case x < 30:
 		return famPosition(r, 3, 1, 1, 30, 0, 1) // about 1 000 positions
 	case x < 45:
